@@ -672,7 +672,12 @@ func harness_C05_policy() {
 		c05.msgs = append(c05.msgs, msg)
 		c05.cur = i
 		before := c05.dataEvents
-		meta := &module.MsgMetadata{ID: fmt.Sprintf("c05-%d", i), SMTPOpts: smtp.MailOptions{RequireTLS: msg.requireTLS}, TLSRequireOverride: msg.override, Quarantine: msg.quarantine}
+		// the quarantine flag is raised before the delivery starts or by a check of
+		// the body stage (after the recipients were accepted); the body is handed
+		// over atomically or per recipient
+		lateQuarantine := msg.quarantine && flags&8 != 0 && nondetBool(fmt.Sprintf("msg%d.quarantinedAtBody", i))
+		perRcpt := flags&8 != 0 && nondetBool(fmt.Sprintf("msg%d.bodyPerRecipient", i))
+		meta := &module.MsgMetadata{ID: fmt.Sprintf("c05-%d", i), SMTPOpts: smtp.MailOptions{RequireTLS: msg.requireTLS}, TLSRequireOverride: msg.override, Quarantine: msg.quarantine && !lateQuarantine}
 		d, err := rt.Start(ctx, meta, "sender@src.example")
 		if err != nil {
 			verifFail("C05.harness-start")
@@ -689,7 +694,21 @@ func harness_C05_policy() {
 		if accepted > 0 {
 			hdr := textproto.Header{}
 			hdr.Add("Subject", "c05")
-			berr := d.Body(ctx, hdr, buffer.MemoryBuffer{Slice: []byte("x\r\n")})
+			if lateQuarantine {
+				meta.Quarantine = true
+			}
+			var berr error
+			if perRcpt {
+				st := &multipleErrs{errs: map[string]error{}}
+				d.(module.PartialDelivery).BodyNonAtomic(ctx, st, hdr, buffer.MemoryBuffer{Slice: []byte("x\r\n")})
+				for _, e := range st.errs {
+					if e != nil {
+						berr = e
+					}
+				}
+			} else {
+				berr = d.Body(ctx, hdr, buffer.MemoryBuffer{Slice: []byte("x\r\n")})
+			}
 			if berr == nil {
 				d.Commit(ctx)
 				verifCover("C05.delivered")
